@@ -19,6 +19,16 @@ echo "demo_cmd: $DEMO_CMD" > "$LOG/info.txt"
 # 2. existing tests (whole workspace, test-threads limited to avoid the 5 s wall-clock test flaking under load)
 ( timeout 7200 cargo test --workspace --offline --no-fail-fast -- --test-threads=6 > "$LOG/suite.log" 2>&1 ); SUITE_RC=$?
 FAILED=$(grep -E "^test .* FAILED$" "$LOG/suite.log" | sort -u | head -20)
+# the only wall-clock-sensitive test of the suite (5 s ntest timeout) flakes when the machine is
+# oversubscribed: if it is the ONLY failure, re-run it alone and accept the suite if it passes
+FLAKY="tests::predicate::synchronous_estimate_predicates_respects_total_tx_gas_limit"
+if [ $SUITE_RC -ne 0 ] && [ "$(echo "$FAILED" | grep -c FAILED)" = "1" ] && echo "$FAILED" | grep -q "$FLAKY"; then
+  if ( timeout 1800 cargo test -p fuel-vm --offline --lib -- "$FLAKY" > "$LOG/flaky_rerun.log" 2>&1 ) && \
+     ( timeout 3600 cargo test --workspace --offline --no-fail-fast --exclude fuel-vm -- --test-threads=6 > "$LOG/suite_rest.log" 2>&1 ) && \
+     ( timeout 1800 cargo test -p fuel-vm --offline --doc > "$LOG/suite_vmdoc.log" 2>&1 ); then
+    SUITE_RC=0; FAILED=""; echo "(flaky timeout test failed under load in the full run; passed alone; rest of the workspace re-run separately and passed)"
+  fi
+fi
 # 3. demo with patch
 ( cd $WT && bash "$SRC/demo/run.sh" $WT > "$LOG/demo_with.log" 2>&1 ); DEMO_WITH=$?
 # 4. demo without patch
